@@ -91,8 +91,9 @@ Matches(q, ini) == CASE q.k = "c" -> ini.k = "c" /\ q.s # {} /\ q.s \subseteq in
                      [] OTHER -> FALSE
 
 (* ---------------- topology ---------------- *)
-\* topo = [pus, nodes, ncpus, nmem, objs, ocpus]: nodes = identifiers of the NUMA nodes, objs = the other
-\* declared objects that exist; ncpus/nmem/ocpus functions over them
+\* topo = [pus, nodes, ncpus, nmem, objs, ocpus, ohas]: nodes = identifiers of the NUMA nodes, objs = the other
+\* declared objects that exist; ncpus/nmem/ocpus functions over them (ocpus: the cpuset of the object or, for
+\* I/O and Misc objects, of the parent they are attached to; ohas: the object has a cpuset of its own)
 HasObj(topo, id) == id \in topo.nodes \/ id \in topo.objs
 CpusOf(topo, id) == IF id \in topo.nodes THEN topo.ncpus[id] ELSE topo.ocpus[id]
 
@@ -167,7 +168,8 @@ RestrictTopoOK(t1, t2) ==
 GetValueOK(S, ai, a, t, q, qf, ret, errno, val) ==
   IF ~ai.known \/ qf # 0 THEN ret = -1 /\ errno = "EINVAL"
   ELSE IF a = "Capacity" THEN (IF t \in S.topo.nodes THEN ret = 0 /\ val = S.topo.nmem[t] ELSE ret = -1)
-  ELSE IF a = "Locality" THEN ret = 0 /\ val = VInt(Cardinality(CpusOf(S.topo, t)))
+  ELSE IF a = "Locality" THEN (IF t \in S.topo.nodes \/ S.topo.ohas[t] THEN ret = 0 /\ val = VInt(Cardinality(CpusOf(S.topo, t)))
+                               ELSE ret = -1)                 \* "target_node must have a CPU set"
   ELSE LET f == ai.flags IN
        IF Loose(S, a, f, t, q) THEN ret = -1 \/ (ret = 0 /\ val \in PoolVals(S, a, t))
        ELSE LET mv == MatchVals(S, a, f, t, q) IN
@@ -186,12 +188,13 @@ GetTargetsOK(S, ai, a, q, nrin, ret, errno, nrout, filled) ==
                           ELSE IF ~filter THEN TRUE                  \* no initiator given: the value is unspecified
                           ELSE IF Loose(S, a, f, t, q) THEN v \in PoolVals(S, a, t)
                           ELSE v \in MatchVals(S, a, f, t, q)
-       IN /\ ret = 0
-          /\ Cardinality(must) <= nrout /\ nrout <= Cardinality(may)
-          /\ Len(filled) = Min2(nrin, nrout)
-          /\ \A i \in DOMAIN filled : filled[i][1] \in may /\ ValOK(filled[i][1], filled[i][2])
-          /\ \A i, j \in DOMAIN filled : i # j => filled[i][1] # filled[j][1]
-          /\ (nrin >= nrout => must \subseteq {filled[i][1] : i \in DOMAIN filled})
+       IN \/ filter /\ Unusable(q) /\ ret = -1                        \* an invalid location may also be refused
+          \/ /\ ret = 0
+             /\ Cardinality(must) <= nrout /\ nrout <= Cardinality(may)
+             /\ Len(filled) = Min2(nrin, nrout)
+             /\ \A i \in DOMAIN filled : filled[i][1] \in may /\ ValOK(filled[i][1], filled[i][2])
+             /\ \A i, j \in DOMAIN filled : i # j => filled[i][1] # filled[j][1]
+             /\ (nrin >= nrout => must \subseteq {filled[i][1] : i \in DOMAIN filled})
 
 \* hwloc_memattr_get_initiators; filled = <<initiator, value>> slots
 GetInitiatorsOK(S, ai, a, t, nrin, ret, errno, nrout, filled) ==
@@ -216,6 +219,7 @@ BestTargetOK(S, ai, a, q, qf, ret, errno, t, val) ==
            loose == UNION {{<<t2, v>> : v \in PoolVals(S, a, t2)} : t2 \in {x \in T : Loose(S, a, f, x, q)}}
        IN \/ ret = 0 /\ <<t, val>> \in (strong \cup loose) /\ \A p \in strong : Better(f, val, p[2])
           \/ ret = -1 /\ errno = "ENOENT" /\ strong = {}
+          \/ ret = -1 /\ errno = "EINVAL" /\ NeedIni(f) /\ Unusable(q)     \* an invalid location may also be refused
 
 \* hwloc_memattr_get_best_initiator
 BestInitiatorOK(S, ai, a, t, ret, errno, ini, val) ==
@@ -339,6 +343,7 @@ IGetValue(topo, known, at, t, q, qf) ==
   IF qf # 0 \/ ~known THEN [ret |-> -1, errno |-> "EINVAL", val |-> VInt(0)]
   ELSE IF IsConv(at.name) THEN
        (IF at.name = "Capacity" /\ t \notin topo.nodes THEN [ret |-> -1, errno |-> "EINVAL", val |-> VInt(0)]
+        ELSE IF at.name = "Locality" /\ t \notin topo.nodes /\ ~topo.ohas[t] THEN [ret |-> -1, errno |-> "EINVAL", val |-> VInt(0)]
         ELSE [ret |-> 0, errno |-> "0", val |-> IConvVal(topo, at.name, t)])
   ELSE LET j == FirstIdx(at.tgs, LAMBDA tg : tg.t = t) IN
        IF j = 0 THEN [ret |-> -1, errno |-> "EINVAL", val |-> VInt(0)]
